@@ -202,3 +202,54 @@ def _py_build_native(mv, memo):
 
 
 PyNode.build_native = _py_build_native
+
+
+# ---- ast.Constant (added for C02): `node.value` of a Constant is the constant itself -------------------------------
+def _py_attr_alias(ex, node, attr, lineno=0):
+    """`x.value` is modelled by two attributes: `const` (dynamic value) when x is an ast.Constant, `value` (child
+    node) for every other node kind. Outside recursive spec bodies the executor forks on the kind; inside them the
+    kind must follow from the enclosing conditions (write `isinstance(n, ast.Constant) and ... n.value ...`)."""
+    if attr != "value":
+        return None
+    is_const = _py_isinstance(ex, node, "Constant")  # (the deprecated Num/Str/... subclasses included)
+    k = ex.known(is_const)
+    if k is None:
+        if ex.merge_depth > 0:
+            from pyvc.ty import Unsupported
+            raise Unsupported("`.value` of an ast node whose kind (Constant or not) is not determined by the enclosing "
+                              "conditions inside a spec function body")
+        k = ex.decide(is_const)
+    return "const" if k else None
+
+
+PyNode.attr_alias = _py_attr_alias
+
+
+def _py_hasattr(ex, node, name):
+    """hasattr(node, 'lineno'/'col_offset'): trusted parser fact -- every expr/stmt node produced by ast.parse carries
+    a position. Decided only when the node is known to be an expr or stmt (else: not modelled -> Unsupported)."""
+    if name in ("lineno", "col_offset"):
+        positioned = z3.Or(_py_isinstance(ex, node, "expr"), _py_isinstance(ex, node, "stmt"))
+        if ex.known(positioned) is True:
+            ex.ufs_used.add("ast: expr/stmt nodes from ast.parse carry lineno/col_offset")
+            return z3.BoolVal(True)
+    return None
+
+
+PyNode.hasattr_term = _py_hasattr
+
+
+_py_build_native_base = _py_build_native
+
+
+def _py_build_native(mv, memo):  # noqa: F811  (rebinds the name the base function recurses through)
+    """Native rebuild: the modelled `const` of a Constant node is its real `.value`."""
+    n = _py_build_native_base(mv, memo)
+    if isinstance(mv, dict) and isinstance(n, _ast.Constant) and "const" in mv:
+        n.value = mv["const"]
+        if "const" in n.__dict__:
+            del n.__dict__["const"]
+    return n
+
+
+PyNode.build_native = _py_build_native
